@@ -62,6 +62,62 @@ pub open spec fn cars_of(h: Heap, first: VCell, cars: Seq<usize>) -> bool {
 }
 /// none of the cells was allocated in h
 pub open spec fn all_fresh(h: Heap, cells: Seq<usize>) -> bool { forall|i: int| 0 <= i < cells.len() ==> !heap_live(h, VCell::Ptr(#[trigger] cells[i])) }
+/// heap step "one cell allocated": cell p was free and now holds v, every other cell keeps content and liveness
+pub open spec fn one_cell_added(h1: Heap, h2: Heap, p: usize, v: VCell) -> bool {
+    &&& !heap_live(h1, VCell::Ptr(p)) && heap_live(h2, VCell::Ptr(p)) && heap_deref(h2, VCell::Ptr(p)) == v
+    &&& forall|c: VCell| c != VCell::Ptr(p) ==> #[trigger] heap_deref(h2, c) == heap_deref(h1, c)
+    &&& forall|c: VCell| #[trigger] heap_live(h1, c) ==> heap_live(h2, c)
+}
+/// heap step "one cell overwritten": cell p now holds v, nothing else changes, liveness is untouched
+pub open spec fn one_cell_changed(h1: Heap, h2: Heap, p: usize, v: VCell) -> bool {
+    &&& heap_deref(h2, VCell::Ptr(p)) == v
+    &&& forall|q: usize| q != p ==> #[trigger] heap_deref(h2, VCell::Ptr(q)) == heap_deref(h1, VCell::Ptr(q))
+    &&& forall|c: VCell| !(c is Ptr) ==> #[trigger] heap_deref(h2, c) == heap_deref(h1, c)
+    &&& forall|c: VCell| #[trigger] heap_live(h2, c) == heap_live(h1, c)
+}
+/// one iteration of clone_list: allocate the pair (a, nil) at pp, then hang it behind the previous last cell (if there is one)
+pub proof fn lemma_clone_step(h0: Heap, h_in: Heap, h_put: Heap, h: Heap, c0: Seq<usize>, a0: Seq<usize>, nil: usize, pp: usize, a: usize)
+    requires
+        chain(h_in, c0, a0, nil), all_fresh(h0, c0), forall|i: int| 0 <= i < c0.len() ==> c0[i] != nil, heap_ext(h0, h_in),
+        heap_live(h_in, VCell::Ptr(nil)), heap_deref(h_in, VCell::Ptr(nil)) is Nil, !heap_live(h0, VCell::Ptr(nil)),
+        one_cell_added(h_in, h_put, pp, VCell::Pair(a, nil)),
+        c0.len() == 0 ==> h == h_put,
+        c0.len() > 0 ==> one_cell_changed(h_put, h, c0[c0.len() - 1], VCell::Pair(a0[a0.len() - 1], pp)),
+    ensures
+        chain(h, c0.push(pp), a0.push(a), nil), all_fresh(h0, c0.push(pp)), forall|i: int| 0 <= i < c0.push(pp).len() ==> c0.push(pp)[i] != nil,
+        heap_ext(h0, h), heap_live(h, VCell::Ptr(nil)), heap_deref(h, VCell::Ptr(nil)) is Nil,
+{
+    let c1 = c0.push(pp); let a1 = a0.push(a); let n = c0.len() as int;
+    // the new cell is distinct from every old cell and from the () cell (they were allocated, it was not)
+    assert forall|i: int| 0 <= i < n implies c0[i] != pp by { assert(heap_live(h_in, VCell::Ptr(c0[i]))); }
+    assert(pp != nil);
+    assert(!heap_live(h0, VCell::Ptr(pp))) by { if heap_live(h0, VCell::Ptr(pp)) { assert(heap_live(h_in, VCell::Ptr(pp))); } }
+    assert forall|i: int| 0 <= i < c1.len() implies heap_live(h, VCell::Ptr(#[trigger] c1[i]))
+        && heap_deref(h, VCell::Ptr(c1[i])) == VCell::Pair(a1[i], if i + 1 < c1.len() { c1[i + 1] } else { nil }) by {
+        if i < n {
+            assert(c1[i] == c0[i] && a1[i] == a0[i]);
+            assert(heap_live(h_in, VCell::Ptr(c0[i])));
+            assert(heap_deref(h_put, VCell::Ptr(c0[i])) == heap_deref(h_in, VCell::Ptr(c0[i])));
+            if i + 1 < n { assert(c1[i + 1] == c0[i + 1]); assert(c0[i] != c0[n - 1]); } else { assert(c1[i + 1] == pp); }
+        } else { assert(c1[i] == pp && a1[i] == a); if n > 0 { assert(pp != c0[n - 1]); } }
+    }
+    assert forall|i: int, j: int| 0 <= i < j < c1.len() implies c1[i] != c1[j] by { if j < n { assert(c1[i] == c0[i] && c1[j] == c0[j]); } else { assert(c1[j] == pp); assert(c1[i] == c0[i]); } }
+    assert forall|i: int| 0 <= i < c1.len() implies !heap_live(h0, VCell::Ptr(#[trigger] c1[i])) by { if i < n { assert(c1[i] == c0[i]); } }
+    assert forall|i: int| 0 <= i < c1.len() implies c1[i] != nil by { if i < n { assert(c1[i] == c0[i]); } }
+    assert forall|c: VCell| #[trigger] heap_live(h0, c) implies heap_live(h, c) && heap_deref(h, c) == heap_deref(h0, c) by {
+        assert(heap_live(h_in, c) && heap_deref(h_in, c) == heap_deref(h0, c));
+        assert(c != VCell::Ptr(pp));
+        assert(heap_live(h_put, c) && heap_deref(h_put, c) == heap_deref(h_in, c));
+        if n > 0 {
+            assert(heap_live(h, c) == heap_live(h_put, c));
+            match c {
+                VCell::Ptr(q) => { assert(!heap_live(h0, VCell::Ptr(c0[n - 1]))); assert(q != c0[n - 1]); assert(heap_deref(h, VCell::Ptr(q)) == heap_deref(h_put, VCell::Ptr(q))); }
+                _ => { assert(heap_deref(h, c) == heap_deref(h_put, c)); }
+            }
+        }
+    }
+    if n > 0 { assert(c0[n - 1] != nil); }
+}
 /// what clone_list answers: a fresh chain, as long as the argument, with the argument's very car fields, ending in a fresh () cell;
 /// head and tail point at its first and last pair
 pub open spec fn cloned(h0: Heap, h1: Heap, list: VCell, head: VCell, tl: VCell, cells: Seq<usize>, cars: Seq<usize>, nilp: usize) -> bool {
@@ -138,6 +194,53 @@ UNITS = [{
             ],
             'inserts': [{'anchor': '*vm.heap.get_at_index_mut(pair.as_ptr()?) = new_pair;', 'where': 'before',
                          'text': 'proof { axiom_cow_cell_ref(&pair); match pair { VCell::Ptr(pp) => { axiom_live_ptr(vm.heap_spec(), pp); } _ => {} } }'}],
+        },
+        # append itself is not ingestible (Verus: `for-loops do not yet support continue`); its list-copying helper is verified
+        '::clone_list': {
+            'props': L,
+            'loop_isolation': True,
+            'attrs': '#[verifier::exec_allows_no_decreases_clause]\n#[verifier::rlimit(40)]',
+            'requires': REQ + ['spine_live(old(vm).heap_spec(), list)'],
+            'body_start': 'proof { axiom_vcell_into_self_l(); }',
+            'ensures': [
+                (['C14'], '''r matches Ok((hd, tl)) ==> exists|cells: Seq<usize>, cars: Seq<usize>, nilp: usize| #[trigger] cloned(old(vm).heap_spec(), final(vm).heap_spec(), list, hd, tl, cells, cars, nilp)'''),
+                (['C14'], 'final(vm).stack_spec() == old(vm).stack_spec()'),
+            ],
+            'loops': {0: '''invariant_except_break rest is Pair,
+                invariant
+                    vm.stack_spec() == old(vm).stack_spec(), spine_live(old(vm).heap_spec(), list), heap_ext(old(vm).heap_spec(), vm.heap_spec()),
+                    <VCell as vstd::std_specs::convert::IntoSpec<VCell>>::obeys_into_spec(), forall|c: VCell| #[trigger] <VCell as vstd::std_specs::convert::IntoSpec<VCell>>::into_spec(c) == c,
+                    heap_live(vm.heap_spec(), VCell::Ptr(nil)) && heap_deref(vm.heap_spec(), VCell::Ptr(nil)) is Nil && !heap_live(old(vm).heap_spec(), VCell::Ptr(nil)),
+                    chain(vm.heap_spec(), gcells, gcars, nil), all_fresh(old(vm).heap_spec(), gcells),
+                    forall|i: int| 0 <= i < gcells.len() ==> gcells[i] != nil,
+                    forall|i: int| 0 <= i < gcars.len() ==> ((#[trigger] lcell(old(vm).heap_spec(), list, i as nat)) matches VCell::Pair(a, d) && a == gcars[i]),
+                    rest == lcell(old(vm).heap_spec(), list, gcars.len()),
+                    gcells.len() == 0 ==> head is Nil && tail is Nil,
+                    gcells.len() > 0 ==> head == VCell::Ptr(gcells[0]) && tail == VCell::Ptr(gcells[gcells.len() - 1]),'''},
+            'loop_count': 1,
+            'inserts': [
+                {'anchor': 'loop {', 'where': 'before', 'text': 'let ghost mut gcells: Seq<usize> = Seq::empty(); let ghost mut gcars: Seq<usize> = Seq::empty();'},
+                {'loop_start': 0, 'text': 'let ghost h_in = vm.heap_spec(); let ghost c0 = gcells; let ghost a0 = gcars; let ghost rest0 = rest;'},
+                {'anchor': 'if head.is_nil() {', 'where': 'before', 'text': 'let ghost gp = pair; let ghost h_put = vm.heap_spec();'},
+                {'anchor': 'let last_pair = vm.heap.get(&tail);', 'where': 'after', 'text': 'proof { axiom_cow_cell_ref(&tail); match tail { VCell::Ptr(tp) => { axiom_live_ptr(vm.heap_spec(), tp); } _ => {} } }'},
+                {'anchor': 'return Ok((head, tail));', 'where': 'before', 'text': '''proof {
+                        assert(chain(vm.heap_spec(), gcells, gcars, nil));
+                        assert(cars_of(old(vm).heap_spec(), list, gcars));
+                        assert(all_fresh(old(vm).heap_spec(), gcells));
+                        assert(heap_ext(old(vm).heap_spec(), vm.heap_spec()));
+                        assert(head == VCell::Ptr(gcells[0]) && tail == VCell::Ptr(gcells[gcells.len() - 1]));
+                        assert(cloned(old(vm).heap_spec(), vm.heap_spec(), list, head, tail, gcells, gcars, nil));
+                        assert(exists|cells: Seq<usize>, cars: Seq<usize>, nilp: usize| #[trigger] cloned(old(vm).heap_spec(), vm.heap_spec(), list, head, tail, cells, cars, nilp));
+                    }'''},
+                {'anchor': 'rest = vm.heap.get(&rest.as_cdr()?);', 'where': 'before', 'text': '''proof {
+                        match (rest0, gp) { (VCell::Pair(a, d), VCell::Ptr(pp)) => {
+                            lemma_clone_step(old(vm).heap_spec(), h_in, h_put, vm.heap_spec(), c0, a0, nil, pp, a);
+                            gcells = c0.push(pp); gcars = a0.push(a);
+                            axiom_cow_cell_ref(&VCell::Ptr(d));
+                            assert(lcell(old(vm).heap_spec(), list, a0.len()) == rest0);
+                        } _ => {} }
+                    }'''},
+            ],
         },
         '::reverse': {
             'props': L,
